@@ -1,6 +1,6 @@
 import SqlgrepModel.Lemmas.LimitSelect
 import SqlgrepModel.Lemmas.LimitAgg
-import SqlgrepModel.Lemmas.SelectFollow
+import SqlgrepModel.Lemmas.FollowBridge
 /-
 C07 — LIMIT n outputs exactly the first n rows of the unlimited result.
 
@@ -129,15 +129,16 @@ theorem agg_final_table_take (O : Oracles) (q : AggStmt) (n : Nat) (es : EngineS
     aggResult_same O (q := q.withLimit none) (q' := q.withLimit (some n)) ⟨rfl, rfl, rfl, rfl, rfl, rfl⟩ rfl]
   cases aggResult O (q.withLimit none) es.agg <;> rfl
 
-/-- **follow mode** (non-aggregate statement; follow mode has no joins): `FollowFileExecutor::execute` — nothing
-read when the limit is 0, else every line fed to the engine with update + result, every result table printed, the
-loop left after a table that came with `reached_limit` — prints exactly the records of the batch run over the
-same lines. So `limit_is_take` (and C08's `distinct_is_first_occurrences`) hold verbatim for what follow mode
-prints. (`selectFollowRun` models that loop by reading; the engine answers it consumes are the `incr` cases.) -/
+/-- **follow mode** (non-aggregate statement; follow mode has no joins): the executed follow loop
+(`Model/ExecI.lean` `runFollowAll` = `FollowFileExecutor::execute`, driver kind `followi`: nothing read when the
+limit is 0, else every delivered line fed to the engine with update + result, every result table printed, the loop
+left after a table that came with `reached_limit`) has exactly the outcome of the batch run over the same lines:
+same records, same number of lines read, same error. So `limit_is_take` and `limit_consumption` (and C08's
+`distinct_is_first_occurrences`) hold verbatim for follow mode. -/
 theorem follow_prints_batch_output (O : Oracles) (qy : Query) (q : SelectStmt) (hq : qy.stmt = .select q)
     (hj : qy.join = none) (lines : List Line) :
-    selectFollowRun O qy false lines = (runBatch O qy [] [readableFile lines] none).printed :=
-  followRun_eq_batch O qy q hq hj lines
+    runFollowAll O qy none lines = runBatch O qy [] [readableFile lines] none :=
+  runFollowAll_select_eq_runBatch O qy q hq hj lines
 
 /-! ### non-vacuity and concrete behaviour -/
 
